@@ -84,13 +84,16 @@ Consume ==
      CASE st.op = "create" ->
             /\ mix' = [mix EXCEPT ![st.n] = st.mixins] /\ lb' = [lb EXCEPT ![st.n] = st.linkback]
             /\ UNCHANGED <<own, used, lastmod>> /\ bad' = bad
-       [] st.op \in {"register", "unregister", "add_mixins"} ->
+       [] st.op \in {"register", "unregister", "add_mixins", "conform"} ->
             IF st.out = "refused"
             THEN /\ UNCHANGED <<mix, lb, own, used, lastmod>>
                  /\ bad' = Add(IF \E k \in used : st.n \in AncOf(mix, k) THEN "" ELSE "C16:refusal_justified", st)
             ELSE /\ own' = CASE st.op = "register" -> [own EXCEPT ![st.n] = PushDown(@, st.sid, 0, st.m)]
                              [] st.op = "unregister" ->
                                   [own EXCEPT ![st.n] = DropClose(@, st.m)]
+                             \* X5 (beyond the listed properties): a hot reload = the old version unregistered, the new one registered
+                             [] st.op = "conform" ->
+                                  [own EXCEPT ![st.n] = PushDown(DropClose(@, st.old), st.sid, 0, st.m)]
                              [] OTHER -> own
                  /\ mix' = IF st.op = "add_mixins" THEN [mix EXCEPT ![st.n] = @ \o st.mixins] ELSE mix
                  /\ lastmod' = st.n
